@@ -83,7 +83,7 @@ def oracle(case, rec, group):
 
 
 def run(tier, seed):
-    FIXED[:] = arraygen.fixed_cases(progs.BN)
+    FIXED[:] = arraygen.fixed_cases(progs.BN) + arraygen.alias_cases(progs.BN)
     return tracecheck.run(PID, tier, seed, {}, oracle, n_quick=300 + 7 * len(FIXED), n_thorough=5000, variants=variants, casegen=casegen,
                           mask=1 | 2 | 4 | 8, shrink_budget=6)
 
